@@ -168,6 +168,38 @@ def _large_case(args):
     return out, int((M != 0).sum())
 
 
+def _boundary_case(args):
+    """matrices whose number of columns / rows sits at an unsigned-integer boundary (the CSC->CSR
+    conversion chooses the narrowest unsigned type for its column indices)"""
+    nr, nc, wd = args
+    from cell_type_mapper.anndata_iterator.anndata_iterator import AnnDataRowIterator
+    rng = np.random.default_rng(nr * 7 + nc)
+    M = np.zeros((nr, nc), dtype=np.float32)
+    for r in range(nr):
+        for c in (0, 1, nc // 2, nc - 2, nc - 1):
+            if rng.random() < 0.8:
+                M[r, c] = float(rng.integers(1, 50))
+    M[0, nc - 1] = 7.0
+    M[nr - 1, 0] = 3.0
+    out = []
+    d = tempfile.mkdtemp(dir=wd)
+    try:
+        for enc in ('csc', 'csr'):
+            p = os.path.join(d, f'{enc}.h5ad')
+            write_matrix(p, M, enc, None, 'float32', 'default')
+            it = AnnDataRowIterator(p, row_chunk_size=max(1, nr // 2), tmp_dir=d, max_gb=1)
+            got = np.vstack([np.asarray(c[0]) for c in it])
+            if not np.array_equal(got, M):
+                bad = int((got != M).sum())
+                out.append(('rows:boundary-values', f'{enc} {nr}x{nc}: {bad} entries differ'))
+            del it
+    except Exception as e:
+        out.append(('rows:boundary-exception', f'{nr}x{nc}: {type(e).__name__}: {e}'))
+    finally:
+        shutil.rmtree(d, ignore_errors=True)
+    return out
+
+
 def run(ctx):
     quick = ctx.tier == 'quick'
     rng = random.Random(ctx.seed + 5)
@@ -233,6 +265,15 @@ def run(ctx):
             for sig, msg in bad[:2]:
                 ctx.report(sig, msg, {'large_seed': seed})
         ctx.part('large', matrices=len(ljobs), over_100_entries=sum(1 for b, n in louts if n > 100))
+        bj = [(nr, nc, wd) for nr, nc in [(4, 255), (4, 256), (4, 257), (4, 258), (257, 4), (256, 5),
+                                          (3, 65535), (3, 65536), (3, 65537)]]
+        with cf.ProcessPoolExecutor(max_workers=9) as ex:
+            bouts = list(ex.map(_boundary_case, bj))
+        for (nr, nc, _), bad in zip(bj, bouts):
+            ctx.count({'boundary': [nr, nc]}, nontrivial=True)
+            for sig, msg in bad[:2]:
+                ctx.report(sig, msg, {'boundary': [nr, nc]})
+        ctx.part('boundary', shapes=len(bj))
     if ctx.only in (None, 'c2s') and all_traces:
         tr = all_traces[:400]
         vs = validate(ctx, 'RowAccess_Trace', tr, 'RowAccess_Trace')
